@@ -166,6 +166,12 @@ def coqc_many(paths, timeout=600, jobs=16):
         futs = {p: ex.submit(coqc, p, timeout) for p in paths}
         for p, f in futs.items():
             res[p] = f.result()
+    # a shard that ran out of time on a loaded machine is compiled once more, alone, with three times the limit:
+    # a timeout is not a verdict
+    for p in paths:
+        rc, out = res[p]
+        if rc != 0 and "[timeout after" in out:
+            res[p] = coqc(p, 3 * timeout)
     return res
 
 
@@ -267,6 +273,8 @@ def build_props(ctx, rep, pid, extra_targets=(), timeout=1500):
     names = re.findall(r"^\s*(?:Theorem|Lemma|Example|Corollary)\s+([A-Za-z0-9_']+)", open(props_v).read(), flags=re.M)
     with CoqLock():
         rc, out = make([f"Props/{pid}.vo", *extra_targets], timeout)
+        if rc == 124 and "[timeout after" in out:       # a loaded machine: once more (make resumes where it stopped)
+            rc, out = make([f"Props/{pid}.vo", *extra_targets], 2 * timeout)
         rep.checker_cmds.append(f"make -C coq Props/{pid}.vo (coqc 8.16.1 full .vo build)")
         if rc != 0:
             rep.extra["make_log_tail"] = out[-3000:]
@@ -276,6 +284,8 @@ def build_props(ctx, rep, pid, extra_targets=(), timeout=1500):
                 rep.oblig(n, False)
             return False, out, f"{broken[0]}:{broken[1]}"
         rc2, out2 = sh(["coqc", "-Q", ".", "Molli", f"Props/{pid}.v"], 600, cwd=COQ)
+        if rc2 == 124 and "[timeout after" in out2:
+            rc2, out2 = sh(["coqc", "-Q", ".", "Molli", f"Props/{pid}.v"], 1800, cwd=COQ)
     if rc2 != 0:
         for n in names:
             rep.oblig(n, False)
